@@ -19,6 +19,7 @@ import builtins
 import enum
 import functools
 import inspect
+import math
 import types
 from typing import Any, Callable, List, NamedTuple, Optional, Sequence, Type, Union
 
@@ -242,6 +243,9 @@ def _convert_int(value: Any, conversion_fn: PyValToCstFunc) -> cst.CSTNode:
 def _convert_float(value: Any, conversion_fn: PyValToCstFunc) -> cst.CSTNode:
   """Converts a constant float to CST."""
   del conversion_fn  # Not used.
+  if math.isnan(value) or math.isinf(value):
+    # repr() gives `nan`, `inf` or `-inf`, which are not Python literals.
+    return cst.parse_expression(f'float({repr(value)!r})')
   return cst.parse_expression(repr(value))
 
 
@@ -269,7 +273,19 @@ def _convert_ellipsis(value: Any, conversion_fn: PyValToCstFunc) -> cst.CSTNode:
 @register_py_val_to_cst_converter(complex)
 def _convert_complex(value: Any, conversion_fn: PyValToCstFunc) -> cst.CSTNode:
   """Converts a constant complex number to CST."""
-  del conversion_fn  # Not used.
+
+  def is_plain(x):  # Finite and positive (or +0.0): repr(x) is a number token.
+    return math.isfinite(x) and math.copysign(1.0, x) > 0
+
+  if not (is_plain(value.real) and is_plain(value.imag)):
+    # Negative or special parts can not be written as `(real+imagj)`.
+    return cst.Call(
+        func=cst.Name('complex'),
+        args=[
+            cst.Arg(conversion_fn(value.real)),
+            cst.Arg(conversion_fn(value.imag)),
+        ],
+    )
   if value.real:
     return cst.BinaryOperation(
         left=cst.Float(repr(value.real)),
